@@ -22,7 +22,7 @@ ASSUMPTIONS = ['RNG stubs: documented contracts only (listed in stubs)', 'the ra
 BOUNDS = {'quick': 'RandomFunction input_dim 1-3 x output_dim 1-2 x num_terms 1-2; vectors 2-3, matrices 2x2, 2x3, 3x3, tensor 2x2x2; SquareMatrices dims 2-3 '
                    'x {None, diagonal, symmetric, antisymmetric} x traceless', 'thorough': 'num_terms 3, dimension 4, norm obligation attempted (NRA)'}
 OUTSIDE = ['determinant=0 (eigenvalues: LAPACK) and determinant=1 beyond the stubbed real 2x2/3x3 families', 'OrthogonalMatrices/UnitaryMatrices (scipy absent)',
-           'complex array samplers (object-dtype arrays would take numpy\'s real-norm path; hermitian/antihermitian force complex)',
+           'complex array samplers beyond 2-vectors and 2x2 (the Frobenius norm of complex object arrays is stubbed: numpy would take its real-norm path)',
            'argument (angle) of ComplexSector beyond the polar form', 'retry-loop counts', 'IEEE rounding']
 DEADLINE = {'quick': 170, 'thorough': 1500}
 FUNCS = ['sampling.RealInterval.__init__/gen_sample', 'sampling.IntegerRange', 'sampling.ComplexRectangle', 'sampling.ComplexSector', 'sampling.DiscreteSet',
@@ -265,6 +265,93 @@ def h_array(E, kind, shape, opt):
     return 'ok'
 
 
+class _ComplexNormLinalg:
+    """np.linalg for the sampler module: the Frobenius norm of an object array with complex entries is sqrt(sum re^2 + im^2)
+    (numpy takes x.dot(x) for object dtype, which is only the norm for real entries)"""
+
+    def __getattr__(self, n):
+        return getattr(np.linalg, n)
+
+    def norm(self, a, *args, **kw):
+        if isinstance(a, np.ndarray) and a.dtype == object and not args and not kw:
+            tot = 0
+            for v in a.ravel():
+                tot = tot + v.real * v.real + v.imag * v.imag
+            return tot.sqrt() if isinstance(tot, SymReal) else float(tot) ** 0.5
+        return np.linalg.norm(a, *args, **kw)
+
+
+class _NpComplexNorm(NpRandomProxy):
+    linalg = _ComplexNormLinalg()
+
+
+def _parts(v):
+    return (v.real, v.imag)
+
+
+def h_complex_array(E, kind, opt):
+    """complex array samplers and the (anti)hermitian families, which are complex whatever `complex` says: entries complex as declared
+    (some imaginary part can be non-zero - a sat query), hermitian structure, drawn norm in range"""
+    import mitxgraders.matrixsampling as M
+    import mitxgraders.sampling as S
+    from mitxgraders.helpers.calc.math_array import MathArray
+    n0, n1 = E.real('norm0', 0.5, 6), E.real('norm1', 0.5, 6)
+    with rng(E) as (r, ch):
+        with shadow(M, np=_NpComplexNorm(r)):
+            if kind == 'vector':
+                s = M.ComplexVectors(shape=2, norm=[n0, n1])
+                shape = (2,)
+            elif kind == 'matrix':
+                s = M.ComplexMatrices(shape=(2, 2), norm=[n0, n1], triangular=opt)
+                shape = (2, 2)
+            else:
+                sym, cplx = opt
+                kw = {} if cplx is None else dict(complex=cplx)
+                s = M.SquareMatrices(dimension=2, symmetry=sym, norm=[n0, n1], **kw)
+                shape = (2, 2)
+            declared_complex = s.config['complex']
+            try:
+                A = s.gen_sample()
+            except ZeroDivisionError:
+                raise Abort()
+    E.check('is-MathArray-of-declared-shape', isinstance(A, MathArray) and A.shape == shape)
+    E.check('hermitian-families-are-declared-complex', declared_complex is True)
+    ent = {idx: A[idx] for idx in np.ndindex(*A.shape)}
+    if E.mode == 'sym':
+        E.check('entries-complex-as-declared', sand(any(isinstance(v, SymComplex) for v in ent.values()), *[near_eq(v, 0) for v in ent.values() if not isinstance(v, SymComplex)]))
+    else:
+        E.check('entries-complex-as-declared', np.iscomplexobj(np.asarray(A)))
+    if kind == 'square':
+        sym, cplx = opt
+        for (i, j) in ent:
+            (a, b), (c, d) = _parts(ent[(i, j)]), _parts(ent[(j, i)])
+            if sym == 'hermitian':
+                E.check('symmetry', sand(near_eq(a, c), near_eq(b, -d)))
+            if sym == 'antihermitian':
+                E.check('symmetry', sand(near_eq(a, -c), near_eq(b, d)))
+            if sym == 'symmetric':
+                E.check('symmetry', sand(near_eq(a, c), near_eq(b, d)))
+        off = ent[(0, 1)]
+        if E.mode == 'sym':
+            E.check('imaginary-part-attainable', isinstance(off, SymComplex) and E.sat_witness('imag', off.imag > 0.01) is True)
+        else:
+            # concrete confirmation of the existential obligation: one draw of the real sampler with the real numpy generator
+            kw = {} if cplx is None else dict(complex=cplx)
+            A2 = np.asarray(M.SquareMatrices(dimension=2, symmetry=sym, **kw).gen_sample())
+            E.check('imaginary-part-attainable', np.iscomplexobj(A2) and abs(A2[0, 1].imag) > 0)
+    if kind == 'matrix' and opt == 'upper':
+        E.check('triangular-zeros', sand(near_eq(ent[(1, 0)].real, 0), near_eq(ent[(1, 0)].imag, 0)))
+    lo, hi = smin(n0, n1), smax(n0, n1)
+    if E.mode == 'sym':
+        u = SymReal(z3.Real('rng%d' % r.n))
+        d = lo + (hi - lo) * u
+        E.check('drawn-norm-in-range', sand(near_le(lo, d), near_le(d, hi)))
+    else:
+        nrm = float(np.linalg.norm(np.asarray(A, dtype=complex)))
+        E.check('drawn-norm-in-range', near_le(min(n0, n1), nrm) and near_le(nrm, max(n0, n1)))
+    return 'ok'
+
+
 def h_array_norm(E, n):
     """direct norm obligation for an n-vector (non-linear: attempted under the solver cap)"""
     import mitxgraders.matrixsampling as M
@@ -394,6 +481,12 @@ def harnesses(tier):
                 hs.append(Harness(pname('array', kind='square', dim=dim, symmetry=sym, traceless=tl), h_array, ('square', (dim, dim), (sym, tl)), FUNCS,
                                   'norm ends in [0.5,6]', STUBS))
         add(h_identity_multiples, 'identity_multiples', dict(dim=dim), 'scalar range ends in [-6,6]')
+    add(h_complex_array, 'complex_array', dict(kind='vector', opt=None), 'complex 2-vector, norm ends in [0.5,6]')
+    for tri in (None, 'upper'):
+        add(h_complex_array, 'complex_array', dict(kind='matrix', opt=tri), 'complex 2x2, norm ends in [0.5,6]')
+    for sym, cplx in [('hermitian', None), ('hermitian', False), ('hermitian', True), ('antihermitian', None), ('antihermitian', False), ('symmetric', True), (None, True)]:
+        hs.append(Harness(pname('complex_array', kind='square', symmetry=sym, complex=cplx), h_complex_array, ('square', (sym, cplx)), FUNCS,
+                          '2x2, norm ends in [0.5,6]', STUBS + ['matrixsampling.np.linalg.norm of an object array with complex entries -> sqrt(sum re^2+im^2)']))
     for dim, sym in [(2, 'diagonal'), (3, 'diagonal'), (2, 'symmetric'), (2, None)] + ([(3, 'symmetric'), (3, None)] if T else []):
         add(h_det_one, 'det_one', dict(dim=dim, symmetry=sym), 'determinant=1, real family, first draw; exact cofactor determinant', expect_inconclusive=True)
     if T:
